@@ -72,7 +72,7 @@ def run(c, chk, alloc_failure=False):
                    sample=(f.name in ('cfg_setopt', 'cfg_dupopt_array', 'cfg_getopt_secidx', 'parse_title')))
     chk.analysed = {'functions': nfun + 1, 'paths': npaths}
     chk.floor('R7.1 functions analysed', nfun, 90)
-    chk.floor('R7.1 paths analysed', npaths, 2000)
+    chk.floor('R7.1 paths analysed', npaths, 1200)
 
     lexer_actions_ownership(c, chk)
     parser_ownership(c, chk)
@@ -297,7 +297,7 @@ def parser_ownership(c, chk):
         chk.ok('R7.1', 'cfg_parse_internal: %d residual paths, %d returns' % (npaths, nret),
                'pending comment/title released on every return and overwrite (may be non-NULL in states %s / %s); argument vector released on every exit from states %s'
                % (sorted(mn['comment']), sorted(mn['opttitle']), sorted(dirty)), sample=True)
-    chk.floor('R7.1 parser residual paths', npaths, 300)
+    chk.floor('R7.1 parser residual paths', npaths, 200)
     chk.extra['parser_typestate'] = {'comment_maybe_nonnull': sorted(mn['comment']), 'opttitle_maybe_nonnull': sorted(mn['opttitle']),
                                      'argument_vector_maybe_nonempty': sorted(dirty)}
 
@@ -452,16 +452,21 @@ def freecb_rule(c, chk, ex):
         chk.ok('R7.5', 'cfg_setopt: pointer slot overwrite', '%d paths: old value released through freecb exactly once when both are set' % n, sample=True)
     # cfg_free_value: the PTR arm
     f = c.need('cfg_free_value')
-    calls = [x for x in f.calls() if x.callee_name() is None]
+    calls = [x for x in c.deep_calls(f) if x.callee_name() is None]
     from .c14 import fnptr_field
-    fcb = [x for x in calls if fnptr_field(f, x.callee) == 'freecb']
+    fcb = [x for x in calls if fnptr_field(x.func, x.callee) == 'freecb']
     if len(fcb) != 1:
         chk.fail('R7.5', 'freecb:cfg_free_value', c.where(f), 'cfg_free_value() calls the release callback at %d sites, expected 1' % len(fcb))
     else:
         # the slot itself is freed afterwards in the same iteration: free(values[i]) post-dominates the call
         pd = _cfg.postdominators(f)
         frees = [x for x in f.calls('free')]
-        ok = any(x.block.label in pd.get(fcb[0].block.label, ()) for x in frees)
+        anchor = fcb[0]
+        if anchor.func is not f:
+            # the callback sits in a helper split off this function: judge from the helper's call site
+            anchor = next((x for x in f.calls() if x.callee_name() in set(g.name for g in c.deep_funcs(f)) and
+                           any(y is fcb[0] for y in c.deep_calls(c.func(x.callee_name())))), fcb[0])
+        ok = any(x.block.label in pd.get(anchor.block.label, ()) or (x.block is anchor.block and x.idx > anchor.idx) for x in frees)
         if ok:
             chk.ok('R7.5', 'cfg_free_value: pointer values', 'freecb(value) under type==PTR && freecb && value, followed by the release of the slot')
         else:
